@@ -894,6 +894,14 @@ func (e *SpecEnv) callExpr(v *ast.CallExpr) Val {
 			// dyn(x, T): payload of interface x viewed as T
 			iv := e.ifaceArg(v.Args[0])
 			t := e.resolveType(v.Args[1])
+			// a devirtualised interface always holds its concrete type (the directive's stated assumption)
+			if iv.Ty != nil {
+				if u, ok := iv.Ty.Underlying().(*types.Interface); ok && u.NumMethods() > 0 {
+					if _, ct := e.c.eng.devirt(iv.Ty, firstMethod(u)); ct != nil && !strings.Contains(iv.Tag, "!q") {
+						e.c.assume(e.s, fmt.Sprintf("(or (= %s 0) (= %s %d))", iv.Tag, iv.Tag, e.c.typeID(ct)))
+					}
+				}
+			}
 			return e.c.unbox(e.s, e.heap, iv, t)
 		case "isfresh":
 			a := e.eval(v.Args[0])
